@@ -255,7 +255,7 @@ impl Renamer {
                     }
                 };
             }
-            it = item.next();
+            it = item.next_including_opt();
         }
         Ok(())
     }
@@ -306,7 +306,7 @@ impl Renamer {
         source_name: &[u8],
         match_suffix: bool,
     ) -> Result<(), Error> {
-        let it = parsed_packet.into_iter_additional() as Option<ResponseIterator<'_>>;
+        let it = parsed_packet.into_iter_additional_including_opt() as Option<ResponseIterator<'_>>;
         Self::rename_response_section(
             it,
             renamed_packet,
@@ -367,7 +367,6 @@ impl Renamer {
             source_name,
             match_suffix,
         )?;
-        parsed_packet.copy_raw_edns_section(&mut renamed_packet);
         Ok(renamed_packet)
     }
 }
